@@ -1,8 +1,8 @@
 """C09 -- generation is a pure function: same inputs, byte-identical files.
 
 T: the translator c09t lists every map range (and clock / rand / goroutine use) of internal/configs,
-   version1, version2 into coq/gen/MapRanges.v; Determ/Inventory.v and Properties/C09.v are re-compiled
-   against it; every site must be covered by named theorems of the hand-maintained Determ/Table.v.
+   version1, version2 into coq/gen/MapRanges.v; Determ/ProofsInventory.v and Properties/C09.v are re-compiled
+   against it; every site must be covered by named theorems of the hand-maintained Determ/ProofsTable.v.
 X+S: the harness c09 renders fixtures through the real Configurator / template executors / LocalManager
    60 times in each of 3 fresh processes and calls the map-ranging functions 400 times each; the
    decidable specification (all renderings equal, no `changed` after the first) and the site models are
@@ -60,7 +60,7 @@ def inventory_obligations(run, sites, nondet):
     """compile what depends on gen/MapRanges.v, then ask Rocq for the status of every site"""
     rc, out = C.coq_make(only=ONLY, tag="c09", timeout=1500)
     built = rc == 0
-    body = ("From NIC Require Import Determ.Model Determ.Table gen.MapRanges.\n"
+    body = ("From NIC Require Import Determ.Model Determ.ProofsTable gen.MapRanges.\n"
             "Definition rows : list (list Z) := Eval vm_compute in\n"
             "  map (fun s => [Z.of_nat (s_index s); Z.of_nat (s_line s); Z.of_nat (fst (site_status s))]) MapRanges.sites.\n"
             "Print rows.\n"
@@ -78,7 +78,7 @@ def inventory_obligations(run, sites, nondet):
         status[sid] = code
         where = "%s/%s:%d %s (range %s, class %s, targets %s)" % (s["Pkg"], s["File"], s["Line"], sid, s["Operand"], s["Class"], s.get("Targets") or [])
         if code == 9:
-            run.add_obligation(False, "inventory:" + sid, "map-range site not in the coverage table Determ/Table.v (new or renamed site): " + where)
+            run.add_obligation(False, "inventory:" + sid, "map-range site not in the coverage table Determ/ProofsTable.v (new or renamed site): " + where)
         elif code == 8:
             run.add_obligation(False, "inventory:" + sid, "map-range site changed: the translator's class/operand/targets no longer match the coverage table: "
                                + where + " -- " + (s.get("Why") or ""))
@@ -312,7 +312,7 @@ def judge(run, cases, res, status, verbose=False):
                     run.failing({"kind": "order-dependent-output", "site": sid, "level": "unit", "function": c["kind"]}, [slim(c)],
                                 "%s returns %d different results for the same input (n=%s) over %d calls, e.g. %s vs %s"
                                 % (c["kind"], len(o["outs"]), c["p"].get("n"), sum(o["counts"]), o["outs"][0][:3], o["outs"][1][:3]),
-                                theorem="site theorem of %s in Determ/Table.v" % sid)
+                                theorem="site theorem of %s in Determ/ProofsTable.v" % sid)
             if not agree:
                 run.failing({"kind": "correspondence", "site": sid}, [slim(c)],
                             "the model of %s and the implementation disagree on case %d (expected %s, got %s)" % (sid, cid, (o.get("expect") or [])[:4], (o.get("outs") or [[]])[0][:4]),
@@ -358,6 +358,7 @@ def check(run):
 
 
 def replay(run, path):
+    path = os.path.abspath(path)
     rp = json.load(open(path))
     sites, nondet = regenerate(run)
     status = inventory_obligations(run, sites, nondet)
